@@ -533,3 +533,35 @@ pub fn replay(args: &[String]) -> i32 {
         0
     }
 }
+
+/// `ddsim mkreplay --prop Cxx --seed N --sig "<signature>" --out file`: minimise and store a replay
+/// for a violation signature (used for the replays of known findings and of fixed defects)
+pub fn mkreplay(args: &[String]) -> i32 {
+    let prop = arg(args, "--prop").expect("--prop");
+    let Some(def) = scen::find(prop) else { return 2 };
+    let seed: u64 = arg(args, "--seed").and_then(|s| s.parse().ok()).expect("--seed");
+    let tier = arg(args, "--tier").unwrap_or("quick");
+    let out = arg(args, "--out").expect("--out");
+    let plan = (def.plan)(seed, tier);
+    let r = run_forked(&plan, false);
+    let sig = arg(args, "--sig").map(|s| s.to_string()).or(r.violations.first().map(|v| v.sig.clone()));
+    let Some(sig) = sig else {
+        eprintln!("no violation for this seed");
+        return 2;
+    };
+    let Some(v) = r.violations.iter().find(|v| v.sig == sig).cloned() else {
+        eprintln!("signature not found among {:?}", r.violations.iter().map(|v| v.sig.clone()).collect::<Vec<_>>());
+        return 2;
+    };
+    match make_replay(&def, &plan, &v, false) {
+        Ok(rf) => {
+            std::fs::write(out, serde_json::to_string_pretty(&rf).unwrap()).unwrap();
+            println!("wrote {out}: {} ops (from {})", rf.plan.n_ops(), rf.minimised_from_ops);
+            0
+        }
+        Err(e) => {
+            eprintln!("{e}");
+            2
+        }
+    }
+}
